@@ -33,15 +33,17 @@ fn close_code(r: &Option<amiquip::Result<()>>) -> u64 {
 
 pub fn scenario(sub: u64) -> Option<(String, u64)> {
     let mut rng = Rng::new(sub);
+    // 0 the client itself closes the connection while the callers are busy,
     // 1 EOF, 2 reset, 3 malformed data, 4 write error, 5 server close, 6 silence (h = 1 s),
     // 7 a frame the client must answer with a client exception
-    let fault = rng.range(1, 7);
+    let fault = rng.range(0, 7);
     let nthreads = rng.range(1, 3) as usize;
     let delay_ms = rng.range(3, 60);
     let (stream, peer) = mock_pair();
     let broker = Broker::start(peer.clone(), BrokerCfg { tune: (2047, 131072, if fault == 6 { 1 } else { 0 }), ..BrokerCfg::default() });
     let opts = ConnectionOptions::<Auth>::default().heartbeat(if fault == 6 { 1 } else { 0 });
     let mut conn = with_deadline(move || Connection::insecure_open_stream(stream, opts, ConnectionTuning::default()), Duration::from_secs(5))?.ok()?;
+    let _ = &mut conn;
     let cons_ch = conn.open_channel(None).ok()?;
     let consumer_rx = {
         let c = cons_ch.basic_consume("q", ConsumerOptions::default()).ok()?;
@@ -88,7 +90,13 @@ pub fn scenario(sub: u64) -> Option<(String, u64)> {
     std::thread::sleep(Duration::from_millis(delay_ms));
     fault_at.store(t0.elapsed().as_millis().max(1) as u64, Ordering::SeqCst);
     let mut broker_opt = Some(broker);
+    let mut early_close = None;
+    let mut conn_opt = Some(conn);
     match fault {
+        0 => {
+            let c = conn_opt.take().unwrap();
+            early_close = Some(with_deadline(move || c.close(), Duration::from_secs(5)));
+        }
         1 => peer.push_episode(Episode::Eof),
         2 => peer.push_episode(Episode::Reset),
         3 => peer.push(vec![9, 0, 1, 0, 0, 0, 1, 7, 0xCE]),
@@ -137,8 +145,28 @@ pub fn scenario(sub: u64) -> Option<(String, u64)> {
         }
     }
     std::mem::forget(cons_ch);
-    let closed = with_deadline(move || conn.close(), Duration::from_secs(5));
+    let closed = match (early_close, conn_opt.take()) {
+        (Some(r), _) => r,
+        (None, Some(conn)) => with_deadline(move || conn.close(), Duration::from_secs(5)),
+        (None, None) => None,
+    };
     let code = close_code(&closed);
+    // C08: the client's Connection.Close is the last frame it ever sent
+    if fault == 0 && std::env::var("VH_DEBUG").is_ok() {
+        match client_frames(&peer.out()) {
+            Some((frames, left)) => eprintln!("fault 0: leftover {} last frames {:?}", left, &frames[frames.len().saturating_sub(3)..]),
+            None => eprintln!("fault 0: wire does not parse"),
+        }
+    }
+    let wire_ok = if fault == 0 {
+        let out = peer.out();
+        match client_frames(&out) {
+            Some((frames, used)) => used == out.len() && matches!(frames.last(), Some(AMQPFrame::Method(0, AMQPClass::Connection(connection::AMQPMethod::Close(_))))),
+            None => false,
+        }
+    } else {
+        true
+    };
     if std::env::var("VH_DEBUG").is_ok() {
         eprintln!("fault {} close -> {:?}", fault, closed);
     }
@@ -148,7 +176,7 @@ pub fn scenario(sub: u64) -> Option<(String, u64)> {
         let _ = b.stop();
     }
     let term = format!(
-        "({}, {}, {}, ({}, {}), {}, {}, {}, {})",
+        "({}, {}, {}, ({}, {}), {}, {}, {}, {}, {})",
         fault,
         coqfmt::list(&threads, |(ok, err, ms)| format!("({}, {}, {})", ok, coqfmt::b(*err), ms)),
         nthreads,
@@ -157,7 +185,8 @@ pub fn scenario(sub: u64) -> Option<(String, u64)> {
         code,
         coqfmt::b(released),
         coqfmt::b(hang),
-        coqfmt::b(misrouted.load(Ordering::SeqCst))
+        coqfmt::b(misrouted.load(Ordering::SeqCst)),
+        coqfmt::b(wire_ok)
     );
     Some((term, fault))
 }
@@ -175,7 +204,7 @@ pub fn run(a: &Args) {
         for h in hs {
             match h.join() {
                 Ok((s, Some((term, fault)))) => {
-                    sink.count(["", "eof", "reset", "malformed", "write-error", "server-close", "silence", "client-exception"][fault as usize]);
+                    sink.count(["client-close", "eof", "reset", "malformed", "write-error", "server-close", "silence", "client-exception"][fault as usize]);
                     sink.push_line(term, true, format!("l2 {}", s));
                 }
                 _ => sink.count("setup_failed"),
